@@ -7,13 +7,18 @@ import (
 	"strings"
 )
 
-const unreservedChars = "fobar~qux"
+const unreservedChars = "fobar~qux41"
+
+// rawOnlyChars are sub-delimiters sent as they are ("+" must not become a blank)
+const rawOnlyChars = "+"
 
 func mkSeg(s string) []Octet {
 	seg := make([]Octet, 0, len(s))
 	for _, c := range s {
 		ch := string(c)
-		seg = append(seg, Octet{C: ch, Enc: !strings.Contains(unreservedChars, ch), Up: true})
+		seg = append(seg, Octet{
+			C: ch, Enc: !strings.Contains(unreservedChars, ch) && !strings.Contains(rawOnlyChars, ch), Up: true,
+		})
 	}
 
 	return seg
@@ -74,9 +79,9 @@ func respell(sp [][]Octet, rng *rand.Rand, mode int) [][]Octet {
 
 			switch mode {
 			case 0: // normal form
-				o.Enc, o.Up = !unres, true
-			case 1: // everything encoded, lower-case hex
-				o.Enc, o.Up = true, false
+				o.Enc, o.Up = !unres && !strings.Contains(rawOnlyChars, o.C), true
+			case 1: // everything encoded (that may be), lower-case hex
+				o.Enc, o.Up = !strings.Contains(rawOnlyChars, o.C), false
 			default:
 				if unres {
 					o.Enc = rng.Intn(3) == 0
@@ -98,7 +103,7 @@ func respell(sp [][]Octet, rng *rand.Rand, mode int) [][]Octet {
 func GenerateC08(n int, seed int64) []Script {
 	rng := rand.New(rand.NewSource(seed)) //nolint:gosec
 	segs := []string{"fo", "bar", "f~o", "qux", "b"}
-	special := []string{"fo/bar", "[x", "f/", "/b", "a/r/q"}
+	special := []string{"fo/bar", "[x", "f/", "/b", "a/r/q", "a+b", "%41x", "a+b/r", "%2Fx"}
 	settings := []string{"", "off", "on", "no_decode"}
 
 	out := make([]Script, 0, n)
